@@ -102,6 +102,17 @@ def tree_invariants(pairs, text, k, nonsilent, tags, start_rule_nonsilent, start
             return len(dd["inner"]) == len(p.children) and all(check_dump(x, c) for x, c in zip(dd["inner"], p.children))
         if len(d) != len(pairs) or not all(check_dump(x, p) for x, p in zip(d, pairs)):
             bad.append("dump-vs-tree")
+        # compact form: an independent transcription of pest's format_pair (site/src/lib.rs), tags included
+        def render(p, indent=0, new_line=True):
+            nkids = len(p.children)
+            pre = ("  " * indent if new_line else "") + ("- " if new_line else "") + (f"{p.tag} " if p.tag else "")
+            if nkids == 0:
+                return f"{pre}{p.name}: {json.dumps(text[p.start:p.end])}"
+            if nkids == 1:
+                return f"{pre}{p.name} > {render(p.children[0], indent, False)}"
+            return f"{pre}{p.name}\n" + "\n".join(render(c, indent + 1, True) for c in p.children)
+        if compact != "\n".join(render(p) for p in pairs):
+            bad.append("dumps-compact-vs-format_pair")
         # compact form: rule names in pre-order; leaves carry json.dumps(text)
         names = re.findall(r"(?:^|- |> )(?:[A-Za-z_][A-Za-z_0-9]* )?([A-Za-z_][A-Za-z_0-9]*)(?=$|\n| > |: )", compact, flags=re.M)
         if names != [x.name for x in flat]:
@@ -211,9 +222,19 @@ def bundled_specs():
     return out
 
 
+def folding_specs():
+    """Case-insensitive literals against inputs whose Unicode case folding is LONGER than the input (ß -> ss, ﬁ -> fi):
+    a match computed on folded text must not put a span beyond the end of the input."""
+    text = 'kw = { ^"ss" }\nw = { "a"* ~ (^"ss" | ^"fi") }\nf = { (^"fi" | ^"s" | "x")+ }\nq = @{ ^"ss" ~ ANY* }\n'
+    s = engine.Spec((), ("kw", "w", "f", "q"), families.inputs("sSa\u00df\ufb01x", 3), "all", "case-folding")
+    s._text = text
+    s.raw = True
+    return [s]
+
+
 def specs(tier: str):
     sub = families.c01_specs(tier, kmode="all", max_inputs=45 if tier == "quick" else 130)
-    return sub + bundled_specs()
+    return sub + bundled_specs() + folding_specs()
 
 
 def run(tier: str) -> int:
